@@ -1,5 +1,6 @@
 \* repaired design (own proposal logged), validator 2 is proposer of (1,0); rounds 0, one height,
 \* one valid peer value, votes from peers 1 and 3; every crash point, one crash or graceful stop (5 inputs); the 4-input configuration with 2 restarts runs in both tiers
+\* Measured: 483,026 distinct states.
 CONSTANTS
   NV = 4
   PowerOf <- DrvPowerOf
